@@ -3,6 +3,21 @@
 # Generated files (coq/Gen) are produced and compiled by the checks themselves.
 cd "$(dirname "$0")"
 export PYTHONPATH="$(pwd)/harness" PYTHONHASHSEED=0 PYTHONDONTWRITEBYTECODE=1
+# facts regenerated from the current source (the checks regenerate them again on every run); best effort here,
+# so that the files under coq/Tie that depend on them are built by setup as well
+/venv/bin/python - <<'PY'
+from fjverif import framework as fw
+import importlib
+for name in ('gen_facts_c12', 'gen_facts_c13', 'gen_facts_c20'):
+    try:
+        m = importlib.import_module('fjverif.' + name)
+        if hasattr(m, 'write'):
+            m.write()
+        else:
+            fw.write_if_changed(fw.COQ / 'Gen' / ('Facts_' + name[-3:].upper() + '.v'), m.generate(fw.REPO))
+    except Exception as e:  # noqa
+        print('setup: facts', name, 'not generated:', repr(e)[:200])
+PY
 /venv/bin/python -c "from fjverif import framework as fw; fw.ensure_makefile()" || exit 2
 cd coq
 # -k: a file that does not compile must not hide the others; every check re-makes its own targets and
